@@ -303,37 +303,55 @@ pub fn owed_of(p: &Position, cum: i128) -> i128 {
 /// with `with_oracle`, replaced by the oracle-priced ratio when the spread to the oracle is ≥10% and
 /// that ratio is higher. None if there is no position or a quote query failed.
 pub fn ref_ratio(t: &TraderObs, v: &VammObs, with_oracle: bool) -> Option<i128> {
+    ref_ratio_alts(t, v, with_oracle).map(|a| a[0])
+}
+
+/// Every reading of the stated rule: one value, or - when the spot and the TWAP PnL have the same magnitude and
+/// differ (opposite signs, dust positions), where "the PnL of smaller magnitude" names both - the value for each,
+/// the one the code picks today (spot) first.
+pub fn ref_ratio_alts(t: &TraderObs, v: &VammObs, with_oracle: bool) -> Option<Vec<i128>> {
     let p = t.pos.as_ref()?;
     if p.size.is_zero() || t.out_spot < 0 || t.out_twap < 0 {
         return None;
     }
     let (ps, pt) = (pnl_of(p, t.out_spot), pnl_of(p, t.out_twap));
-    let (pnl, notional) = if ps.abs() > pt.abs() {
-        (pt, t.out_twap)
+    let mut cands = vec![];
+    if ps.abs() > pt.abs() {
+        cands.push((pt, t.out_twap));
     } else {
-        (ps, t.out_spot)
-    };
-    if notional == 0 {
-        return None;
+        cands.push((ps, t.out_spot));
+        if ps.abs() == pt.abs() && (ps != pt || t.out_spot != t.out_twap) {
+            cands.push((pt, t.out_twap));
+        }
     }
-    let owed = owed_of(p, v.cum);
-    let rem = p.margin.u128() as i128 + pnl - owed;
-    let mut r = tdiv(rem * di(), notional);
-    if with_oracle && v.oracle > 0 {
-        let spot = v.spot as i128;
-        let spread = tdiv((spot - v.oracle) * di(), v.oracle).abs();
-        if spread >= di() / 10 {
-            let on = tdiv(v.oracle * p.size.value.u128() as i128, di());
-            if on > 0 {
-                let opnl = pnl_of(p, on);
-                let orr = tdiv((p.margin.u128() as i128 + opnl - owed) * di(), on);
-                if orr > r {
-                    r = orr;
+    let mut out = vec![];
+    for (pnl, notional) in cands {
+        if notional == 0 {
+            if out.is_empty() {
+                return None;
+            }
+            continue;
+        }
+        let owed = owed_of(p, v.cum);
+        let rem = p.margin.u128() as i128 + pnl - owed;
+        let mut r = tdiv(rem * di(), notional);
+        if with_oracle && v.oracle > 0 {
+            let spot = v.spot as i128;
+            let spread = tdiv((spot - v.oracle) * di(), v.oracle).abs();
+            if spread >= di() / 10 {
+                let on = tdiv(v.oracle * p.size.value.u128() as i128, di());
+                if on > 0 {
+                    let opnl = pnl_of(p, on);
+                    let orr = tdiv((p.margin.u128() as i128 + opnl - owed) * di(), on);
+                    if orr > r {
+                        r = orr;
+                    }
                 }
             }
         }
+        out.push(r);
     }
-    Some(r)
+    Some(out)
 }
 
 pub struct StepObs {
